@@ -12,6 +12,7 @@ Events: feed / take(w) / finish(w) / deliver, see DESIGN.md section 2.2.
 """
 import collections
 import multiprocessing
+import os
 import threading
 import multiprocessing.pool as mpp
 import pickle
@@ -39,6 +40,110 @@ class SimStepLimit(SimDeadlock):
     """Bounded liveness: the call did not return within the step bound of the run (20 000
     simulator events, against at most a few hundred needed by any generated workload).
     Reported like a deadlock: class `no-return`."""
+
+
+ACTIVE_SIM = None          # the simulator bound by Installed (or None)
+_RealEvent, _RealCondition = threading.Event, threading.Condition
+_RealSemaphore, _RealBoundedSemaphore = threading.Semaphore, threading.BoundedSemaphore
+
+
+def _created_by_sut(depth=2):
+    """Was the object constructed directly by code of the package under test?"""
+    import sys
+    try:
+        fn = sys._getframe(depth).f_code.co_filename
+    except ValueError:
+        return False
+    root = _sut_root()
+    return bool(root) and fn.startswith(root) and (os.sep + 'tests' + os.sep) not in fn
+
+
+def _sut_root():
+    import sys
+    m = sys.modules.get('bycycle')
+    return os.path.dirname(os.path.realpath(m.__file__)) + os.sep if m is not None else ''
+
+
+def _can_drive():
+    sim = ACTIVE_SIM
+    return sim if (sim is not None and not sim.in_step and not sim.in_worker) else None
+
+
+class SimAwareEvent(_RealEvent):
+    """threading.Event for code under test: a caller waiting for an event that a pool callback
+    will set lets simulator events happen instead of blocking for real. Events created by
+    anything else (threading internals, the harness) behave exactly like the real class."""
+
+    def __init__(self):
+        super().__init__()
+        self._from_sut = _created_by_sut()
+
+    def wait(self, timeout=None):
+        if self._from_sut:
+            sim = _can_drive()
+            while sim is not None and not self.is_set():
+                if not sim.step():
+                    break
+        return super().wait(timeout)
+
+
+class SimAwareCondition(_RealCondition):
+    def __init__(self, lock=None):
+        super().__init__(lock)
+        self._from_sut = _created_by_sut()
+        self._sim_notified = False
+
+    def notify(self, n=1):
+        self._sim_notified = True
+        super().notify(n)
+
+    def notify_all(self):
+        self._sim_notified = True
+        super().notify_all()
+
+    def wait(self, timeout=None):
+        if self._from_sut:
+            sim = _can_drive()
+            if sim is not None:
+                self._sim_notified = False
+                while not self._sim_notified:
+                    if not sim.step():
+                        break
+                if self._sim_notified:
+                    return True
+        return super().wait(timeout)
+
+
+class SimAwareSemaphore(_RealSemaphore):
+    def __init__(self, value=1):
+        super().__init__(value)
+        self._from_sut = _created_by_sut()
+
+    def acquire(self, blocking=True, timeout=None):
+        if self._from_sut and blocking:
+            sim = _can_drive()
+            while sim is not None and self._value == 0:
+                if not sim.step():
+                    break
+        return super().acquire(blocking, timeout)
+
+    __enter__ = acquire
+
+
+class SimAwareBoundedSemaphore(_RealBoundedSemaphore):
+    def __init__(self, value=1):
+        super().__init__(value)
+        self._from_sut = _created_by_sut()
+
+    def acquire(self, blocking=True, timeout=None):
+        if self._from_sut and blocking:
+            sim = _can_drive()
+            while sim is not None and self._value == 0:
+                if not sim.step():
+                    break
+        return super().acquire(blocking, timeout)
+
+    __enter__ = acquire
 
 
 class _SimCondition:
@@ -795,13 +900,17 @@ class Installed:
             if block and not sim.in_step and not sim.in_worker:
                 while q.empty():
                     if not sim.step():
-                        if timeout is not None:
-                            raise _queue.Empty
-                        sim.logev('deadlock', 'queue.get')
-                        raise SimDeadlock('caller blocked on an empty queue.Queue and no event is enabled')
+                        break       # nothing simulated can fill it (real threads may): real wait
             return orig_get(q, block, timeout)
 
         self._set(_queue.Queue, 'get', sim_get)
+        self._set(threading, 'Event', SimAwareEvent)
+        self._set(threading, 'Condition', SimAwareCondition)
+        self._set(threading, 'Semaphore', SimAwareSemaphore)
+        self._set(threading, 'BoundedSemaphore', SimAwareBoundedSemaphore)
+        global ACTIVE_SIM
+        self._prev_active = ACTIVE_SIM
+        ACTIVE_SIM = sim
         from . import simexec
         binds, exec_map = simexec.bindings(sim)
         for obj, attr, repl in binds:
@@ -821,6 +930,8 @@ class Installed:
         return self
 
     def __exit__(self, *exc):
+        global ACTIVE_SIM
+        ACTIVE_SIM = getattr(self, '_prev_active', None)
         for obj, name, val in reversed(self._saved):
             setattr(obj, name, val)
         self._saved = []
